@@ -29,6 +29,25 @@ void mmd_print_char_opendocument(DString * out, char c, bool line_breaks) { if (
 #define CALL mmd_print_string_opendocument(out, str, g_lb)
 #endif
 
+/* glibc's <ctype.h> macros index a table through __ctype_b_loc(): a model, so that a string printer that classifies characters
+ * (isalnum ...) is judged on its obligations and not on a missing libc body */
+#include <ctype.h>
+static unsigned short g_ctab[384]; static const unsigned short * g_ctabp;
+const unsigned short ** __ctype_b_loc(void) { return &g_ctabp; }
+static void ctype_init(void) {
+	for (int c = 0; c < 256; c++) {
+		unsigned short f = 0;
+		if (c >= '0' && c <= '9') { f |= _ISdigit | _ISalnum | _ISxdigit | _ISgraph | _ISprint; }
+		else if ((c >= 'a' && c <= 'z') || (c >= 'A' && c <= 'Z')) { f |= _ISalpha | _ISalnum | _ISgraph | _ISprint | (c >= 'a' ? _ISlower : _ISupper); }
+		else if (c == ' ') { f |= _ISspace | _ISprint | _ISblank; }
+		else if (c >= 9 && c <= 13) { f |= _ISspace | (c == 9 ? _ISblank : 0) | _IScntrl; }
+		else if (c > 32 && c < 127) { f |= _ISpunct | _ISgraph | _ISprint; }
+		else if (c < 32 || c == 127) { f |= _IScntrl; }
+		g_ctab[128 + c] = f;
+	}
+	g_ctabp = g_ctab + 128;
+}
+
 #define NORAW ASSERT(0, "the string printer writes to the output only through the per-character escaper")
 void d_string_append(DString * d, const char * s) { NORAW; }
 void d_string_append_c(DString * d, char c) { NORAW; }
@@ -36,8 +55,9 @@ void d_string_append_c_array(DString * d, const char * s, size_t n) { NORAW; }
 void d_string_append_printf(DString * d, const char * fmt, ...) { NORAW; }
 
 void h_str_calls(void) {
+	ctype_init();
 	IN(size_t, n); ASSUME(n <= STRMAX);
-	char * str = ALLOC(n + 1);
+	char * str = ALLOC(STRMAX + 1);
 	for (size_t i = 0; i < STRMAX; i++) { if (i < n) { char c; ASSUME(c != 0); str[i] = c; } }
 	str[n] = 0; g_str = str;
 	{ IN(bool, ob); IN(bool, lb); g_ob = ob; g_lb = lb; } { IN(size_t, k); g_k = k; } g_calls = 0; g_flag_ok = true; g_kth = 0;
